@@ -439,6 +439,13 @@ Theorem text_token_loops_terminate : forall st : TokM.tstate,
 Proof. exact UntrustedMsgTerm.text_loops_terminate. Qed.
 Print Assumptions text_token_loops_terminate.
 
+(* the third token loop of the per-type text parsers, SVCBBase.from_text's parameter loop (C05's
+   model): more fuel never changes its result, i.e. len(text) + 2 iterations always suffice *)
+Theorem svcb_param_loop_fuel_sufficient : forall (st : TokM.tstate) (params : list (Z * RdTextM.pval)) (extra : nat),
+  RdTextM.svcb_params_loop (TokM.rem_fuel st + extra) st params = RdTextM.svcb_params_loop (TokM.rem_fuel st) st params.
+Proof. exact UntrustedMsgTerm.svcb_params_loop_fuel_sufficient. Qed.
+Print Assumptions svcb_param_loop_fuel_sufficient.
+
 (* dns.rdata.from_text on C05's model of it (TokM.rdata_from_text: first token, the generic-syntax
    branch with its wire re-encoding check, the per-type text parser, the end-of-line check - all
    inside ExceptionWrapper(SyntaxError)), for an ARBITRARY per-type parser and wire codec: a value or
